@@ -23,6 +23,9 @@ package blockchain
 //@   modifies *
 //@   opt assumecallreqs
 //@   atcall processorContext.verifyCommit requires [commitOfSecondForFirst] blockID == firstID && commit == types.lastCommitOf(second) && height == types.blockHeightOf(first)
+//@   atcall processorContext.verifyCommit requires [idComputedFromTheFirstBlockItself] blockID.Hash == types.blockHashOf(first) && blockID.PartsHeader == result(Header) && first == result(nextTwo, 0).block && second == result(nextTwo, 1).block
+//@   atcall Block.MakePartSet requires [partsOfTheFirstBlock] b == first
+//@   atcall PartSet.Header requires [headerOfTheFirstBlocksParts] ps == result(MakePartSet)
 //@   atcall processorContext.saveBlock requires [savedOnlyAfterVerification] outer(err) == nil && block == first
 //@   atcall processorContext.applyBlock requires [appliedOnlyAfterVerification] outer(err) == nil && block == first && blockID == firstID
 
